@@ -59,6 +59,9 @@ func (x *Exec) evalCall(st *State, e *ast.CallExpr) []*Value {
 	if id, ok := unparen(e.Fun).(*ast.Ident); ok {
 		if c := x.eng.cf.Contracts[x.frame().qual]; c != nil {
 			if cb := c.Callbacks[id.Name]; cb != nil {
+				if len(cb.OneOf) > 0 {
+					return x.applyOneOf(st, cb, sig, args, e)
+				}
 				return x.applyCallback(st, cb, sig, args, e)
 			}
 		}
@@ -888,6 +891,24 @@ func (x *Exec) applyContract(st *State, c *Contract, callee *types.Func, recv *V
 		}
 		x.oblige(st, "call-pre", fmt.Sprintf("call(%s).callers", q), x.b.Bool(ok), at.Pos(), c.CallersProps)
 	}
+	// 0b. function-valued arguments for parameters declared "callback P oneof ..."
+	for pn, cb := range c.Callbacks {
+		if len(cb.OneOf) == 0 || at == nil {
+			continue
+		}
+		ok := false
+		for i := 0; i < sig.Params().Len() && i < len(at.Args); i++ {
+			if sig.Params().At(i).Name() != pn {
+				continue
+			}
+			if sel, isSel := unparen(at.Args[i]).(*ast.SelectorExpr); isSel && contains(cb.OneOf, sel.Sel.Name) {
+				if fsel, isF := unparen(at.Fun).(*ast.SelectorExpr); isF && x.eng.srcText(fsel.X) == x.eng.srcText(sel.X) {
+					ok = true
+				}
+			}
+		}
+		x.oblige(st, "call-pre", fmt.Sprintf("call(%s).callback.%s", q, pn), x.b.Bool(ok), at.Pos(), nil)
+	}
 	// 1. preconditions
 	for _, r := range c.Requires {
 		if clauseUsesFresh(c, r) {
@@ -1141,6 +1162,79 @@ func (x *Exec) applyEffect(st, pre *State, ef *Effect, pos token.Pos, q string) 
 	}
 	x.spec--
 	x.specAssign(st, pre, ef.LHS, rhs, cond)
+}
+
+// applyOneOf: a call through a func-typed parameter whose argument is known
+// (checked at the call sites of this function) to be one of a few methods of
+// the receiver: all their preconditions are demanded, the union of their
+// frames is forgotten and the postconditions they share (same text) are
+// assumed.
+func (x *Exec) applyOneOf(st *State, cb *Contract, sig *types.Signature, args []*Value, at *ast.CallExpr) []*Value {
+	fd := x.eng.funcs[x.frame().qual]
+	var recv *Value
+	var rtype string
+	if fd != nil && fd.Recv != nil && len(fd.Recv.List) == 1 && len(fd.Recv.List[0].Names) == 1 {
+		if obj := x.eng.info.Defs[fd.Recv.List[0].Names[0]]; obj != nil {
+			recv = st.env[obj]
+			rtype = structName(derefT(obj.Type()))
+		}
+	}
+	if recv == nil {
+		x.fail("callback oneof: enclosing function has no receiver")
+		return x.freshResults(st, sig, "cb")
+	}
+	var cs []*Contract
+	var first *types.Func
+	for _, n := range cb.OneOf {
+		q := rtype + "." + n
+		c := x.eng.cf.Contracts[q]
+		fo := x.eng.fobj[q]
+		if c == nil || fo == nil {
+			x.fail("callback oneof: no contract for %s", q)
+			return x.freshResults(st, sig, "cb")
+		}
+		if first == nil {
+			first = fo
+		}
+		cs = append(cs, c)
+	}
+	syn := &Contract{Func: cb.Func, Loops: map[int]*LoopSpec{}, Mode: cb.Mode, Modifies: []string{}}
+	seenReq := map[string]bool{}
+	for _, c := range cs {
+		for _, r := range c.Requires {
+			if r.Free || seenReq[r.Src] {
+				continue
+			}
+			seenReq[r.Src] = true
+			syn.Requires = append(syn.Requires, r)
+		}
+		syn.Modifies = append(syn.Modifies, c.Modifies...)
+		syn.InstMods = append(syn.InstMods, c.InstMods...)
+		if len(c.Modifies) == 0 && len(c.InstMods) == 0 && !c.Pure {
+			syn.Modifies = append(syn.Modifies, "*")
+		}
+	}
+	for _, en := range cs[0].Ensures {
+		if en.Internal {
+			continue
+		}
+		common := true
+		for _, c := range cs[1:] {
+			found := false
+			for _, e2 := range c.Ensures {
+				if e2.Src == en.Src && !e2.Internal {
+					found = true
+				}
+			}
+			if !found {
+				common = false
+			}
+		}
+		if common {
+			syn.Ensures = append(syn.Ensures, en)
+		}
+	}
+	return x.applyContract(st, syn, first, recv, args, at)
 }
 
 func (x *Exec) applyCallback(st *State, cb *Contract, sig *types.Signature, args []*Value, at *ast.CallExpr) []*Value {
